@@ -70,7 +70,11 @@ def run_case(ctx, name, params):
     reuse = {}
 
     def ev(prob, x, as_np, fam):
-        vec = [np.float64(v) for v in x] if as_np else list(x)
+        if as_np is True:
+            as_np = np.float64
+        vec = [as_np(v) for v in x] if as_np else list(x)
+        if as_np:
+            ctx.count("evaluations_with_numpy_" + as_np.__name__)
         try:
             # half of the points are evaluated on an Individual object that was evaluated before with another vector
             # (re-assigned or updated in place), as the swarm algorithms do with their particles
@@ -106,12 +110,14 @@ def run_case(ctx, name, params):
             res = prob.evaluate(ind)
             out = [float(v) for v in res]
         except Exception as e:
-            ctx.violation("%s/exception" % fam, "%s.evaluate raised %r on a box point" % (fam, e), {"x": x, "numpy": as_np})
+            ctx.violation("%s/exception" % fam, "%s.evaluate raised %r on a box point" % (fam, e), {"x": x, "numpy": getattr(as_np, "__name__", as_np)})
             return None
         if any(not math.isfinite(v) for v in out):
             ctx.violation("%s/not_finite" % fam, "%s returned a non-finite objective" % fam, {"x": x, "f": out})
             return None
-        if any(v < -1e-12 for v in out):
+        # single-precision inputs give single-precision angles (float32(pi/2) lies above pi/2): zero up to that precision
+        neg_tol = 1e-12 if as_np is not np.float32 else 2e-4 * max(1.0, max(abs(v) for v in out))
+        if any(v < -neg_tol for v in out):
             ctx.violation("%s/negative_objective" % fam, "%s returned a negative objective on the box" % fam, {"x": x, "f": out})
             return None
         ctx.count("nonnegativity_checks")
@@ -133,7 +139,12 @@ def run_case(ctx, name, params):
             x = [posval(r, fam) for _ in range(m - 1)]
             for _j in range(k):
                 x.append(r.random() if dist_mode == "rand" else 0.5 if dist_mode == "half" else r.choice([0.0, 1.0, 0.5]))
-            as_np = r.random() < 0.3
+            as_np = r.choice([False, False, False, False, np.float64, np.float64, np.longdouble, np.float32])
+            rel = REL
+            if as_np is np.float32:
+                # single precision: the point is the float32-representable one, and the identities hold to single precision
+                x = [float(np.float32(v)) for v in x]
+                rel = 2e-4
             f = ev(prob, x, as_np, fam)
             ctx.count("cases")
             if f is None:
@@ -150,7 +161,7 @@ def run_case(ctx, name, params):
                 exp = 0.5 * (1 + g)
                 got = sum(f)
                 ctx.count("dtlz1_sum_checks")
-                if not oracles.close(got, exp, REL, 1e-9):
+                if not oracles.close(got, exp, rel, 1e-9 if rel == REL else 1e-4):
                     ctx.violation("DTLZI/sum_identity", "objectives sum to %r, (1+g)/2 is %r" % (got, exp), wit())
                     return
             else:
@@ -158,7 +169,7 @@ def run_case(ctx, name, params):
                 exp = 1 + g
                 got = math.sqrt(sum(v * v for v in f))
                 ctx.count("dtlz234_norm_checks")
-                if not oracles.close(got, exp, REL, 1e-9):
+                if not oracles.close(got, exp, rel, 1e-9 if rel == REL else 1e-4):
                     ctx.violation("%s/norm_identity" % fam, "objective vector has norm %r, 1+g is %r" % (got, exp), wit())
                     return
             ctx.sample({"family": fam, "m": m, "x": x[:4] + ["..."], "f": f}, fam, 1)
@@ -255,7 +266,7 @@ def run_case(ctx, name, params):
         n = len(prob.parameters)
         for _ in range(params["points"]):
             x = [r.choice([0.0, 1.0, 1e-6, r.random(), r.random()]) for _ in range(n)]
-            f = ev(prob, x, r.random() < 0.3, "ZDT1")
+            f = ev(prob, x, r.choice([False, False, np.float64, np.longdouble]), "ZDT1")
             ctx.count("cases")
             if f is None:
                 return
@@ -272,7 +283,7 @@ def run_case(ctx, name, params):
         (l1, u1), (l2, u2) = [p["bounds"] for p in prob.parameters]
         for _ in range(params["points"]):
             x = [r.choice([l1, u1, l1 + r.random() * (u1 - l1)]), r.choice([l2, u2, l2 + r.random() * (u2 - l2)])]
-            f = ev(prob, x, r.random() < 0.3, "BiObjective")
+            f = ev(prob, x, r.choice([False, False, np.float64, np.longdouble]), "BiObjective")
             ctx.count("cases")
             if f is None:
                 return
